@@ -33,6 +33,10 @@ func c06(c *Ctx) {
 	sState(c, "R8/S-STATE")
 	effectFree(c, "R7", "(*Raft).requestPreVote", "change term, vote, role, leader, contact or any store", 4, stateChanging)
 	sStoreWriters(c, "R12/S-WRITERS")
+	// the up-to-date ladder compares against the cached last entry: the cache
+	// names the last entry that is durably in the log, also after a failed
+	// append that followed a truncation (round-7 seed C06-N)
+	c04R2(c, "R13/C04.R2")
 }
 
 // voteGuardTracks builds the tracks shared by requestVote / requestPreVote.
